@@ -40,8 +40,8 @@ def member_text(rng, m, ident):
     for c in comps:
         body.append(c)
         if rng.random() < 0.4:
-            body.append("~ " + rng.choice(["a note", "check: later", "x", "second line\nof a note"]) + " ~")
-    sep = rng.choice(["\n    ", " ", "\n"])
+            body.append("~ " + rng.choice(["a note", "check: later", "x", "second line\nof a note", "two\n\nparagraphs"]) + " ~")
+    sep = rng.choice(["\n    ", " ", "\n", "\n\n  "])       # empty lines inside a csvpath are part of its text
     match = "[" + sep + sep.join(body) + sep + "]"
     scan = lang.render_scan(prog["scan"])
     # docs/comments.md: a field's value runs up to the next coloned word; a stand-alone colon ends it.
@@ -64,7 +64,7 @@ def member_text(rng, m, ident):
         inner = joiner.join(([free] if free else []) + parts)
         if parts and rng.random() < 0.3:
             inner += " : trailing words"
-        comment = "~ " + inner + " ~\n"
+        comment = "~ " + inner + " ~" + rng.choice(["\n", "\n", "\n\n", " "])
     lead = rng.choice(["", "\n", "  "])
     return f"{lead}{comment}$file{m}.csv[{scan}]{match}" + rng.choice(["", "\n"])
 
